@@ -6,6 +6,6 @@ Extraction Language OCaml.
 Extraction "model.ml" mkNumOps nhalf mkVar mkCfg mkSt mkOut
   mkMachine mkMod run_from run state_file resume go_on pair_machine cascade_machine list_machine
   mkRSaved restraint_machine mkHCfg histogram_machine mkACfg abmd_machine mkAb
-  mkXCfg mkXSt mkXIn extlag_machine mkMCfg module_machine
-  abf_machine ABFModel.mkCfg ABFModel.mkSt ABFModel.mkIn ABFModel.mkOut ABFModel.index_ok
+  mkHRCfg histrestraint_machine mkXCfg mkXSt mkXIn extlag_machine bin_value x_fsys mkMCfg module_machine
+  abf_machine eabf_machine ABFModel.mkCfg ABFModel.mkSt ABFModel.mkIn ABFModel.mkOut ABFModel.index_ok
   meta_machine MetaModel.mkCfg MetaModel.mkVar MetaModel.mkBound MetaModel.mkHill MetaModel.mkState.
